@@ -113,6 +113,40 @@ pub(crate) fn to_string_array_node(
     }
 }
 
+/// Binding strength of the operator at the root of `node`, as in the grammar of the
+/// parser: comparison < concatenation < sum < product < power < unary < everything else.
+fn operator_level(node: &Node) -> u8 {
+    match node {
+        Node::CompareKind { .. } => 1,
+        Node::OpConcatenateKind { .. } => 2,
+        Node::OpSumKind { .. } => 3,
+        Node::OpProductKind { .. } => 4,
+        Node::OpPowerKind { .. } => 5,
+        Node::UnaryKind { .. } => 6,
+        _ => 7,
+    }
+}
+
+/// Prints an operand of an operator of strength `level`, in parentheses when it binds
+/// less tightly (or, with `strict`, no more tightly: the right-hand side of a
+/// left-associative operator).
+fn operand(
+    node: &Node,
+    level: u8,
+    strict: bool,
+    move_context: &MoveContext,
+    locale: &Locale,
+    language: &Language,
+) -> String {
+    let text = to_string_moved(node, move_context, locale, language);
+    let own = operator_level(node);
+    if own < level || (strict && own == level) {
+        format!("({text})")
+    } else {
+        text
+    }
+}
+
 fn to_string_moved(
     node: &Node,
     move_context: &MoveContext,
@@ -393,54 +427,33 @@ fn to_string_moved(
         ),
         OpConcatenateKind { left, right } => format!(
             "{}&{}",
-            to_string_moved(left, move_context, locale, language),
-            to_string_moved(right, move_context, locale, language),
+            operand(left, 2, false, move_context, locale, language),
+            operand(right, 2, true, move_context, locale, language),
         ),
         OpSumKind { kind, left, right } => format!(
             "{}{}{}",
-            to_string_moved(left, move_context, locale, language),
+            operand(left, 3, false, move_context, locale, language),
             kind,
-            to_string_moved(right, move_context, locale, language),
+            operand(right, 3, true, move_context, locale, language),
         ),
-        OpProductKind { kind, left, right } => {
-            let x = match **left {
-                OpSumKind { .. } => format!(
-                    "({})",
-                    to_string_moved(left, move_context, locale, language)
-                ),
-                CompareKind { .. } => format!(
-                    "({})",
-                    to_string_moved(left, move_context, locale, language)
-                ),
-                _ => to_string_moved(left, move_context, locale, language),
-            };
-            let y = match **right {
-                OpSumKind { .. } => format!(
+        OpProductKind { kind, left, right } => format!(
+            "{}{}{}",
+            operand(left, 4, false, move_context, locale, language),
+            kind,
+            // a signed right-hand side is also kept in parentheses: `a*(-b)`
+            if matches!(**right, UnaryKind { .. }) {
+                format!(
                     "({})",
                     to_string_moved(right, move_context, locale, language)
-                ),
-                CompareKind { .. } => format!(
-                    "({})",
-                    to_string_moved(right, move_context, locale, language)
-                ),
-                OpProductKind { .. } => format!(
-                    "({})",
-                    to_string_moved(right, move_context, locale, language)
-                ),
-                UnaryKind { .. } => {
-                    format!(
-                        "({})",
-                        to_string_moved(right, move_context, locale, language)
-                    )
-                }
-                _ => to_string_moved(right, move_context, locale, language),
-            };
-            format!("{x}{kind}{y}")
-        }
+                )
+            } else {
+                operand(right, 4, true, move_context, locale, language)
+            },
+        ),
         OpPowerKind { left, right } => format!(
             "{}^{}",
-            to_string_moved(left, move_context, locale, language),
-            to_string_moved(right, move_context, locale, language),
+            operand(left, 5, true, move_context, locale, language),
+            operand(right, 5, true, move_context, locale, language),
         ),
         NamedFunctionKind { name, args, id: _ } => {
             move_function(name, args, move_context, locale, language)
@@ -486,18 +499,18 @@ fn to_string_moved(
         NamedVariableKind { name, id: _ } => name.to_string(),
         CompareKind { kind, left, right } => format!(
             "{}{}{}",
-            to_string_moved(left, move_context, locale, language),
+            operand(left, 1, false, move_context, locale, language),
             kind,
-            to_string_moved(right, move_context, locale, language),
+            operand(right, 1, true, move_context, locale, language),
         ),
         UnaryKind { kind, right } => match kind {
             OpUnary::Minus => format!(
                 "-{}",
-                to_string_moved(right, move_context, locale, language)
+                operand(right, 6, false, move_context, locale, language)
             ),
             OpUnary::Percentage => format!(
                 "{}%",
-                to_string_moved(right, move_context, locale, language)
+                operand(right, 6, true, move_context, locale, language)
             ),
         },
         ErrorKind(kind) => kind.to_localized_error_string(language),
